@@ -489,7 +489,10 @@ Lemma do_loop_post : forall st, Inv st -> ps_fm st = tpp_LoopID -> post (stepped
     assert (Ho1 : ps_fo st <= o1).
     { pose proof (skip_while_good content 106 (fun ch => negb (N.eqb ch tpp_MultiLineLastChar))
                     (snd mo - ps_fo st) (ps_fo st) (snd mo) Hend (Nat.le_refl _)) as G. rewrite Esk in G. cbn in G. lia. }
-    destruct (Nat.ltb_spec o1 (snd mo)) as [Hlt|Hge].
+    destruct (Nat.ltb_spec o1 (snd mo)) as [Hlt|Hge]; cbn [andb].
+    2:{ cbn [post]. unfold with_finder. apply stepped_with_finder with (o := ps_fo st); [lia|exact Hmo|exact Hst|exact (inv_chainok st HI)]. }
+    destruct (Nat.leb_spec (length (ps_stack st)) 255) as [Hdep|Hdep].
+    2:{ cbn [post]. unfold with_finder. apply stepped_with_finder with (o := ps_fo st); [lia|exact Hmo|exact Hst|exact (inv_chainok st HI)]. }
     - (* the head [fo - 5, o1) holds neither '>' nor '}', and '>' stands at o1 *)
       assert (Hgt : nth_error content o1 = Some 62%N).
       { destruct (skip_while_stop _ _ _ _ _ _ _ Esk Hlt) as (ch & Hch1 & Hp).
@@ -512,7 +515,6 @@ Lemma do_loop_post : forall st, Inv st -> ps_fm st = tpp_LoopID -> post (stepped
       + apply chainok_push_loop; [exact (inv_chainok st HI)|cbn [l_parent]; exact E5|].
         unfold li_ok, info_of. cbn [li_off li_voff li_vlen l_off l_voff l_vlen].
         intros k Hk1. unfold vreg in Hv1. rewrite E1 in *. apply Hclean. lia.
-    - cbn [post]. unfold with_finder. apply stepped_with_finder with (o := ps_fo st); [lia|exact Hmo|exact Hst|exact (inv_chainok st HI)].
   Qed.
 
   Lemma do_loop_end_post : forall st, Inv st -> ps_fm st = tpp_LoopEndID -> post (rested st) (do_loop_end st).
